@@ -77,14 +77,24 @@ type scenario struct {
 	Up, Down      int    // payload sizes
 	Chunk         int    // transport read chunk (0 = whole)
 	TCP           bool
+	// Proxy > 0: the split-mode topology of the package documentation - the backend TLS server
+	// sits behind its own connection and two copy loops with a Proxy-byte buffer move bytes
+	// between it and the Conn, so Conn.Write receives arbitrary chunks, not whole records.
+	Proxy int
+	// KeySet shapes the keys the server holds besides the target: "" distinct ids and the same
+	// public name, "same-id" / "same-id-other-name" share the target's config id, "other-name"
+	// / "same-id-other-name" are configs for another public name.
+	KeySet string
 }
 
+const otherPublic = "front2.example.net"
+
 var curveSets = map[string][]tls.CurveID{
-	"x25519":  {tls.X25519},
-	"p256":    {tls.CurveP256},
-	"p384":    {tls.CurveP384},
-	"mlkem":   {tls.X25519MLKEM768, tls.X25519},
-	"default": nil,
+	"x25519":      {tls.X25519},
+	"p256":        {tls.CurveP256},
+	"p384":        {tls.CurveP384},
+	"mlkem":       {tls.X25519MLKEM768, tls.X25519},
+	"default":     nil,
 	"x-then-p256": {tls.X25519, tls.CurveP256},
 	"p256-then-x": {tls.CurveP256, tls.X25519},
 }
@@ -144,7 +154,9 @@ func covering() []scenario {
 	add(func(s *scenario) { s.ClientCurves, s.BackendCurves = "p256-then-x", "x25519" }) // crypto/tls ignores the order of CurvePreferences: no HRR expected here
 	add(func(s *scenario) { s.ClientCurves, s.BackendCurves, s.WantHRR = "x25519", "default", false })
 	add(func(s *scenario) { s.ClientCurves, s.BackendCurves, s.WantHRR = "mlkem", "p256", false }) // falls to... see run(): judged by observation
-	add(func(s *scenario) { s.ClientCurves, s.BackendCurves, s.WantHRR, s.Resume = "x-then-p256", "p256", true, true }) // HRR x resumption
+	add(func(s *scenario) {
+		s.ClientCurves, s.BackendCurves, s.WantHRR, s.Resume = "x-then-p256", "p256", true, true
+	}) // HRR x resumption
 	for _, a := range aeads {
 		add(func(s *scenario) { s.AEAD = a })
 		add(func(s *scenario) { s.AEAD, s.BackendChain = a, 17000 }) // big chain x each AEAD
@@ -176,6 +188,30 @@ func covering() []scenario {
 		add(func(s *scenario) { s.Chunk = ch })
 		add(func(s *scenario) { s.Chunk, s.BackendChain = ch, 17000 })
 	}
+	// split-mode proxy in front of a separate backend connection: copy buffers x first-flight sizes
+	for _, px := range []int{1, 7, 512, 4096, 32768} {
+		for _, ch := range []int{0, 6000, 40000} {
+			if px == 1 && ch > 6000 {
+				continue
+			}
+			add(func(s *scenario) { s.Proxy, s.BackendChain = px, ch })
+		}
+	}
+	add(func(s *scenario) {
+		s.Proxy, s.ClientCurves, s.BackendCurves, s.WantHRR, s.BackendChain = 4096, "x-then-p256", "p256", true, 6000
+	})
+	add(func(s *scenario) { s.Proxy, s.Resume, s.BackendChain = 4096, true, 6000 })
+	// key sets with shared config ids and configs for another public name
+	for _, ks := range []string{"same-id", "other-name", "same-id-other-name"} {
+		for nk := 2; nk <= 3; nk++ {
+			for pos := 0; pos < nk; pos++ {
+				add(func(s *scenario) { s.KeySet, s.NKeys, s.KeyPos = ks, nk, pos })
+			}
+		}
+		add(func(s *scenario) { s.KeySet, s.NKeys, s.KeyPos, s.Stale = ks, 2, 1, "same-id" })
+		add(func(s *scenario) { s.KeySet, s.NKeys, s.KeyPos, s.Stale = ks, 2, 0, "same-id-other-name" })
+	}
+	add(func(s *scenario) { s.Stale = "same-id-other-name" })
 	return out
 }
 
@@ -190,14 +226,27 @@ func run(r *mon.Run, work string, idx int, rng *mrand.Rand, fx *fixtures, s scen
 	// keys held by the client-facing server
 	var held []echgen.KeyPair
 	ids := rng.Perm(200)
+	tpos := s.KeyPos % s.NKeys
 	for i := 0; i < s.NKeys; i++ {
-		held = append(held, echgen.NewKey(uint8(ids[i]), publicName, s.AEAD))
+		id, name := uint8(ids[i]), publicName
+		if i != tpos {
+			if s.KeySet == "same-id" || s.KeySet == "same-id-other-name" {
+				id = uint8(ids[tpos])
+			}
+			if s.KeySet == "other-name" || s.KeySet == "same-id-other-name" {
+				name = otherPublic
+			}
+		}
+		held = append(held, echgen.NewKey(id, name, s.AEAD))
 	}
-	target := held[s.KeyPos%len(held)]
+	target := held[tpos]
 	clientKey := target
 	switch s.Stale {
 	case "same-id":
 		clientKey = echgen.NewKey(target.ID, publicName, s.AEAD)
+	case "same-id-other-name":
+		// the client's stale config names another front end than the held key with that id
+		clientKey = echgen.NewKey(target.ID, otherPublic, s.AEAD)
 	case "other-id":
 		clientKey = echgen.NewKey(uint8(ids[len(ids)-1]), publicName, s.AEAD)
 	}
@@ -230,7 +279,7 @@ func run(r *mon.Run, work string, idx int, rng *mrand.Rand, fx *fixtures, s scen
 	}
 	// the public-name server holds the ECH keys (it answers stale configs with retry configs)
 	public := &tls.Config{
-		Certificates:             []tls.Certificate{fx.ca.MustLeaf(0, publicName)},
+		Certificates:             []tls.Certificate{fx.ca.MustLeaf(0, publicName, otherPublic)},
 		MinVersion:               tls.VersionTLS13,
 		EncryptedClientHelloKeys: echKeys,
 		CurvePreferences:         curveSets[s.BackendCurves],
@@ -317,10 +366,50 @@ func oneConnection(r *mon.Run, work string, idx int, rng *mrand.Rand, fx *fixtur
 		}
 		res.accepted, res.sni, res.alpn = conn.ECHAccepted(), conn.ServerName(), conn.ALPNProtos()
 		cfg := backend
-		if conn.ServerName() == publicName {
+		if conn.ServerName() == publicName || conn.ServerName() == otherPublic {
 			cfg, res.routedPub = public, true
 		}
-		ts := tls.Server(conn, cfg)
+		var bconn net.Conn = conn
+		b2cDone := make(chan struct{})
+		if s.Proxy > 0 {
+			near, far := tlspeer.BufPipe()
+			near.SetDeadline(dl)
+			far.SetDeadline(dl)
+			defer near.Close()
+			defer far.Close()
+			go func() { // client -> backend
+				buf := make([]byte, s.Proxy)
+				for {
+					n, err := conn.Read(buf)
+					if n > 0 {
+						near.Write(buf[:n])
+					}
+					if err != nil {
+						near.Close()
+						return
+					}
+				}
+			}()
+			go func() { // backend -> client, in whatever chunks the buffer yields
+				defer close(b2cDone)
+				buf := make([]byte, s.Proxy)
+				for {
+					n, err := near.Read(buf)
+					if n > 0 {
+						if _, werr := conn.Write(buf[:n]); werr != nil {
+							near.Close()
+							srvSide.Close()
+							return
+						}
+					}
+					if err != nil {
+						return
+					}
+				}
+			}()
+			bconn = far
+		}
+		ts := tls.Server(bconn, cfg)
 		if err := ts.Handshake(); err != nil {
 			res.err, res.stage = err, "backend-handshake"
 			return
@@ -341,6 +430,9 @@ func oneConnection(r *mon.Run, work string, idx int, rng *mrand.Rand, fx *fixtur
 			return
 		}
 		ts.Close()
+		if s.Proxy > 0 {
+			<-b2cDone // the copy loop drains what the backend wrote before the proxy hangs up
+		}
 	}()
 
 	tc := tls.Client(cliSide, client)
@@ -431,7 +523,7 @@ func oneConnection(r *mon.Run, work string, idx int, rng *mrand.Rand, fx *fixtur
 			return false
 		}
 		r.Count("stale_rejections_with_retry_configs", 1)
-		r.Eval(fmt.Sprintf("stale|%s|%d|%s|%s", s.Stale, s.NKeys, s.ClientCurves, s.BackendCurves))
+		r.Eval(fmt.Sprintf("stale|%s|%d|%s|%s|%s", s.Stale, s.NKeys, s.KeySet, s.ClientCurves, s.BackendCurves))
 		return true
 	}
 
@@ -501,7 +593,13 @@ func oneConnection(r *mon.Run, work string, idx int, rng *mrand.Rand, fx *fixtur
 		r.Count("completed_with_record_over_16384", 1)
 	}
 	r.Count("completed", 1)
-	r.Eval(fmt.Sprintf("%s|%s|%v|%d|%d|%v|%d|%d|%d/%d|%d|%d|%d|%v", s.ClientCurves, s.BackendCurves, sawHRR, len(s.ALPN), len(s.ServerName), cs.DidResume, s.ClientCert, s.BackendChain, s.KeyPos, s.NKeys, s.AEAD, s.Up/1000, s.Chunk, s.TCP))
+	r.Eval(fmt.Sprintf("%s|%s|%v|%d|%d|%v|%d|%d|%d/%d|%d|%d|%d|%v", s.ClientCurves, s.BackendCurves, sawHRR, len(s.ALPN), len(s.ServerName), cs.DidResume, s.ClientCert, s.BackendChain, s.KeyPos, s.NKeys, s.AEAD, s.Up/1000, s.Chunk, s.TCP) + fmt.Sprintf("|px%d|%s", s.Proxy, s.KeySet))
+	if s.Proxy > 0 {
+		r.Count("completed_through_split_mode_proxy", 1)
+	}
+	if s.KeySet != "" && s.NKeys > 1 {
+		r.Count("completed_with_shared_id_or_other_name_keys", 1)
+	}
 	return true
 }
 
@@ -526,7 +624,7 @@ func TestCheck(t *testing.T) {
 	defer r.Finish()
 	r.SetRule("real crypto/tls client <-> transport tap <-> ech.NewConn(keys) <-> router on Conn.ServerName() <-> real crypto/tls backend WITHOUT ECH keys (or, for the public name, a tls.Server WITH the keys, SendAsRetry). " +
 		"Scenario = point in client curves {X25519, P-256, P-384, X25519MLKEM768+X25519, default} x backend curves (mismatch forces a real HelloRetryRequest) x ALPN lists (0..8, lengths 1..255) x server names (1..253 bytes) x " +
-		"session cache {cold, warm => PSK resumption} x client certificates {none, small, 20 KB} x backend chain {0.5..40 KB} x key set (1..4 keys, target position) x AEAD x config {fresh, stale same id, stale other id} x payloads 1 B..100 KB x chunking {whole, 1460, 1 byte}; " +
+		"session cache {cold, warm => PSK resumption} x client certificates {none, small, 20 KB} x backend chain {0.5..40 KB} x key set (1..4 keys, target position) x AEAD x other held keys {distinct ids, sharing the target's id, configs of another public name} x config {fresh, stale same id, stale same id of another public name, stale other id} x topology {tls.Server on the Conn, split-mode proxy: backend behind its own connection and copy loops with 1 B..32 KB buffers} x payloads 1 B..100 KB x chunking {whole, 1460, 1 byte}; " +
 		"a covering list guarantees every value and the listed pairs, the rest is PRNG fill. distinct = distinct (curves, HRR observed, #ALPN, name length, resumed, client cert, chain size, key position, AEAD, payload size, chunking) combinations that completed")
 	r.Assume("the conforming client/backend are crypto/tls of the building toolchain (stages: go1.24.0 and go1.26.8); BoringSSL/NSS are not available offline",
 		"a completed TLS 1.3 handshake (Finished / PSK binder verification over the transcript) is itself a cryptographic equality check on the forwarded inner hello")
@@ -565,7 +663,16 @@ func TestCheck(t *testing.T) {
 				s.ClientCert = []int{1, 20000}[rng.IntN(2)]
 			}
 			if rng.IntN(6) == 0 {
-				s.Stale = []string{"same-id", "other-id"}[rng.IntN(2)]
+				s.Stale = []string{"same-id", "other-id", "same-id-other-name"}[rng.IntN(3)]
+			}
+			if rng.IntN(3) == 0 {
+				s.Proxy = []int{1, 3, 100, 1024, 4096, 16384, 32768}[rng.IntN(7)]
+				if s.Proxy < 100 && (s.Up > 20000 || s.Down > 20000 || s.BackendChain > 20000) {
+					s.Proxy = 1024
+				}
+			}
+			if s.NKeys > 1 && rng.IntN(2) == 0 {
+				s.KeySet = []string{"same-id", "other-name", "same-id-other-name"}[rng.IntN(3)]
 			}
 			if r.Thorough() && i%12 == 11 {
 				s.TCP = true
@@ -603,6 +710,8 @@ func TestCheck(t *testing.T) {
 	r.Floor("stale_rejections_with_retry_configs", 5)
 	r.Floor("completed_with_record_over_16384", 3)
 	r.Floor("completed_with_client_cert", 3)
+	r.Floor("completed_through_split_mode_proxy", 10)
+	r.Floor("completed_with_shared_id_or_other_name_keys", 10)
 }
 
 // compatible reports whether client and backend share a group at all (otherwise the handshake legitimately fails).
